@@ -18,6 +18,12 @@ type fout struct {
 	c    int
 }
 
+// MarshalJSON: replays say what the fallback/factory returned (nil,nil / nil,err / client+err / client,nil).
+func (f fout) MarshalJSON() ([]byte, error) {
+	desc := map[string]string{"nil": "nil, nil", "err": "nil, error", "both": "client AND error", "ok": "client, nil"}[f.kind]
+	return []byte(fmt.Sprintf(`{"returns":%q,"client":%d}`, desc, f.c)), nil
+}
+
 func (f fout) coq() string {
 	switch f.kind {
 	case "nil":
